@@ -15,7 +15,7 @@
 //   tune      the real model-tuning driver ml::tune (k-fold splitter, tuner=<id>, own pool of K workers): the warm start handed to every
 //             (trial, fold) callback and the stored result are those of the run with one worker
 //   fit       whole fit() of a linear model (model=<id>, loss mse, k-fold, solver lbfgs with a small budget): folds run on the tuning pool's
-//             workers and submit their batches to the dataset's pool; fitted weights / bias / stored statistics = those of the one-worker run
+//             workers and submit their batches to the dataset's pool; fitted weights / bias / stored statistics = those of the one-worker run within 1e-5 relative (re-association of the per-worker sums)
 //   wlearner  fit of a weak learner (wl=<id>) on the shared dataset over the pool's workers, then predict from T threads
 // config: mode=..;T=<threads>;K=<dataset pool workers>;n=<samples>;batch=<batch size>
 #include "sbv.h"
@@ -496,9 +496,15 @@ extern "C" void sbv_harness(const char* cfg)
             std::vector<double> s1, sk;
             run(1U, w1, b1, s1);
             run(static_cast<size_t>(sbv_cfg("K", 2)), wk, bk, sk);
-            int ok = (s1.size() == sk.size()) ? same(w1, wk) & same(b1, bk) : 0;
-            for (size_t i = 0; ok && i < s1.size(); ++i) ok &= bits(s1[i]) == bits(sk[i]) ? 1 : 0;
-            sbv_check(ok, "fit() with K workers (tuning pool and dataset pool) = fit() with one worker: fitted model (weights / predictions, bias), per-trial values, optimum");
+            // several batches per loop are summed per worker and then reduced: which worker took which batch changes the association of
+            // the floating-point sums, so the comparison is the property's own ("up to floating-point re-association ... within 1e-5
+            // relative"), not bit for bit
+            auto close = [](double a, double b) { const double m = (b < 0 ? -b : b); return (a - b <= 1e-5 * (1.0 + m) && b - a <= 1e-5 * (1.0 + m)) ? 1 : 0; };
+            int  ok    = (s1.size() == sk.size() && w1.size() == wk.size() && b1.size() == bk.size()) ? 1 : 0;
+            for (tensor_size_t i = 0; ok && i < w1.size(); ++i) ok &= close(wk(i), w1(i));
+            for (tensor_size_t i = 0; ok && i < b1.size(); ++i) ok &= close(bk(i), b1(i));
+            for (size_t i = 0; ok && i < s1.size(); ++i) ok &= close(sk[i], s1[i]);
+            sbv_check(ok, "fit() with K workers (tuning pool and dataset pool) = fit() with one worker up to floating-point re-association (1e-5 relative): fitted model (weights / predictions, bias), per-trial values, optimum");
         }
         else if (sbv_cfg_is("mode", "wlearner"))
         {
